@@ -138,6 +138,7 @@ func main() {
 		{"Jwk.lean", genJwk},
 		{"Structs.lean", genStructs},
 		{"InterpVisits.lean", genInterpVisits},
+		{"Signing.lean", genSigning},
 	}
 	for _, g := range gens {
 		b, err := g.f(root, *repo)
